@@ -594,3 +594,43 @@ def _c18(prop, tier):
 
 
 TABLE["C18"] = dict(run=_c18, replay=lambda p, path: smallfam.replay(p, path, driver="ccel", trace_module="Ccel_Trace", trace_consts="  Measured = %s\n" % CCEL_MEASURED))
+
+# ------------------------------------------------------------------------------------------
+import subprocess as _sp  # noqa: E402
+
+
+def _build_check_tool():
+    out = _os.path.join(C.BUILD, "check-tool")
+    _os.makedirs(C.BUILD, exist_ok=True)
+    p = _sp.run(["go", "build", "-buildvcs=false", "-o", out, "./tools/check"], cwd=C.REPO, env=C.GOENV, capture_output=True, text=True)
+    if p.returncode != 0:
+        raise C.Infra("tools/check does not build:\n" + p.stdout + p.stderr)
+    return out
+
+
+def _key_c19(call, evs):
+    i = call["input"]
+    b = dict(field="mr_td", cfg="absent", flag="absent", shape="full", fmt="textproto", quote="valid", inform="bin", roots="flagGood", net="off", crl="off")
+    dev = ["%s=%s" % (k, i[k]) for k in sorted(i) if k in b and i[k] != b[k] and k not in ("field",)]
+    if i["cfg"] != "absent" or i["flag"] != "absent":
+        dev.insert(0, "field=" + i["field"])
+    for e in evs:
+        if e.get("ev") == "ErrClass" and False:
+            pass
+    return ",".join(dev) or "baseline"
+
+
+def _c19(prop, tier):
+    tool = _build_check_tool()
+    cfg = "CONSTANTS\n  Budget = %d\nSPECIFICATION Spec\nINVARIANTS TypeOK ExitIsTruthful ZeroOnlyWhenAllHolds FlagOverridesConfig ExportCase\nCHECK_DEADLOCK FALSE\n" % (2 if tier == "thorough" else 1)
+    code, _, _ = smallfam.run(prop, tier, mc_module="CheckTool_MC", mc_cfg=cfg, driver="checktool", trace_module="CheckTool_Trace", trace_consts="  Budget = 1\n",
+                              key_fn=_key_c19, harness_extra=["-arg", tool], required_actions=("Stage", "Succeed"),
+                              assumptions=["the real tools/check binary built from the tree under test, run as a child process",
+                                           "reachable-network cases: the unmodified binary reaches an in-harness fake PCS through HTTPS_PROXY and SSL_CERT_FILE",
+                                           "the sandbox has no network: 'unreachable' needs no set-up (-timeout=400ms)",
+                                           "quotes are generated (wall-clock validity) and rooted in a generated PKI given to the tool as a CA bundle"])
+    return code
+
+
+TABLE["C19"] = dict(run=_c19, replay=lambda p, path: smallfam.replay(p, path, driver="checktool", trace_module="CheckTool_Trace", trace_consts="  Budget = 1\n",
+                                                                      harness_extra=["-arg", _build_check_tool()]))
